@@ -18,6 +18,9 @@ From Borno Require Import PrintFacts.
 From Borno Require Import NumShortestDefs.
 From Borno Require Import NumShortest.
 From Borno Require Import NumTotal.
+From Borno Require Import Nfc.
+From Borno Require Import NfcTables.
+From Borno Require Import NfcFacts.
 
 (** each executed print appends exactly one event carrying the text of its value (the driver adds the newline and normalises to NFC) *)
 Theorem C15_print_event_inv :
@@ -80,7 +83,7 @@ Theorem C15_text_arr_inv :
          exists (vs : list value) (ts : list (list N)),
            get_arr l s = Some vs /\
            Forall2 (fun (v : value) (t0 : list N) => text_in f s v = TOk t0) vs ts /\
-           t = 91%N :: join_sp ts ++ [93%N].
+           t = 91 :: join_sp ts ++ [93].
 Proof. exact (@text_arr_inv). Qed.
 Print Assumptions C15_text_arr_inv.
 
@@ -90,7 +93,7 @@ Theorem C15_text_obj_inv :
          text_in (S f) s (VObj l) = TOk t ->
          exists (ps : list (list N * value)) (pieces : list (list N)),
            get_obj l s = Some ps /\
-           Forall2 (prop_piece f s) ps pieces /\ t = [109%N; 97%N; 112%N; 91%N] ++ join_sp pieces ++ [93%N].
+           Forall2 (prop_piece f s) ps pieces /\ t = [109; 97; 112; 91] ++ join_sp pieces ++ [93].
 Proof. exact (@text_obj_inv). Qed.
 Print Assumptions C15_text_obj_inv.
 
@@ -98,7 +101,7 @@ Print Assumptions C15_text_obj_inv.
 Theorem C15_shortest_digits_roundtrip :
   forall (f : f64) (d x : Z),
          shortest_digits f = Some (d, x) ->
-         0 < d /\
+         (0 < d)%Z /\
          rnd64 (dec_real d x) = Rbasic_fun.Rabs (BinarySingleNaN.B2R f) /\
          Rdefinitions.RbaseSymbolsImpl.Rlt (Rbasic_fun.Rabs (rnd64 (dec_real d x))) bmax.
 Proof. exact (@shortest_digits_roundtrip). Qed.
@@ -116,19 +119,20 @@ Theorem C15_text_num_cases :
          f = BinarySingleNaN.B754_nan /\ text_num f = Some s_NaN \/
          f = BinarySingleNaN.B754_infinity false /\ text_num f = Some s_pInf \/
          f = BinarySingleNaN.B754_infinity true /\ text_num f = Some s_nInf \/
-         f = BinarySingleNaN.B754_zero false /\ text_num f = Some [48%N] \/
-         f = BinarySingleNaN.B754_zero true /\ text_num f = Some [45%N; 48%N] \/
+         f = BinarySingleNaN.B754_zero false /\ text_num f = Some [48] \/
+         f = BinarySingleNaN.B754_zero true /\ text_num f = Some [45; 48] \/
          BinarySingleNaN.is_finite_strict f = true /\
          (forall z : Z,
           BinarySingleNaN.B2R (BinarySingleNaN.Babs f) = Rdefinitions.IZR z ->
-          z < 2 ^ 53 ->
-          exists d x : Z, text_num f = Some (layout (BinarySingleNaN.Bsign f) d x) /\ d * 10 ^ x = z /\ 0 <= x).
+          (z < 2 ^ 53)%Z ->
+          exists d x : Z,
+            text_num f = Some (layout (BinarySingleNaN.Bsign f) d x) /\ (d * 10 ^ x)%Z = z /\ (0 <= x)%Z).
 Proof. exact (@text_num_cases). Qed.
 Print Assumptions C15_text_num_cases.
 
 (** integers of magnitude below one million print without exponent or fraction *)
 Theorem C15_small_int_plain_signed :
-  forall z : Z, -1000000 < z < 1000000 -> text_num (f_of_Z z) = Some (decimal_of_Z z).
+  forall z : Z, (-1000000 < z < 1000000)%Z -> text_num (f_of_Z z) = Some (decimal_of_Z z).
 Proof. exact (@small_int_plain_signed). Qed.
 Print Assumptions C15_small_int_plain_signed.
 
@@ -152,7 +156,8 @@ Print Assumptions C15_concat_right_is_print_text.
 Theorem C15_shortest_digits_minimal :
   forall (f : f64) (d x d' x' : Z),
          shortest_digits f = Some (d, x) ->
-         0 < d' -> f_same (dec_to_f64 d' x') (BinarySingleNaN.Babs f) = true -> sigdigits d <= sigdigits d'.
+         (0 < d')%Z ->
+         f_same (dec_to_f64 d' x') (BinarySingleNaN.Babs f) = true -> (sigdigits d <= sigdigits d')%Z.
 Proof. exact (@shortest_digits_minimal). Qed.
 Print Assumptions C15_shortest_digits_minimal.
 
@@ -160,7 +165,8 @@ Print Assumptions C15_shortest_digits_minimal.
 Theorem C15_reads_back_iff_in_interval :
   forall (f : f64) (d' x' : Z),
          BinarySingleNaN.is_finite_strict f = true ->
-         0 < d' -> f_same (dec_to_f64 d' x') (BinarySingleNaN.Babs f) = true <-> in_f64_interval f d' x' = true.
+         (0 < d')%Z ->
+         f_same (dec_to_f64 d' x') (BinarySingleNaN.Babs f) = true <-> in_f64_interval f d' x' = true.
 Proof. exact (@reads_back_iff_in_interval). Qed.
 Print Assumptions C15_reads_back_iff_in_interval.
 
@@ -168,28 +174,29 @@ Print Assumptions C15_reads_back_iff_in_interval.
 Theorem C15_shortest_digits_minimal_interval :
   forall (f : f64) (d x : Z),
          shortest_digits f = Some (d, x) ->
-         forall d' x' : Z, 0 < d' -> in_f64_interval f d' x' = true -> sigdigits d <= sigdigits d'.
+         forall d' x' : Z, (0 < d')%Z -> in_f64_interval f d' x' = true -> (sigdigits d <= sigdigits d')%Z.
 Proof. exact (@shortest_digits_minimal_interval). Qed.
 Print Assumptions C15_shortest_digits_minimal_interval.
 
 (** ...and for the integer search itself (closed under the global context: pure integer arithmetic) *)
 Theorem C15_shortest_from_minimal :
   forall (fuel : nat) (lo mid hi den : Z) (incl : bool) (E d x : Z),
-         0 < den ->
-         lo < mid < hi ->
+         (0 < den)%Z ->
+         (lo < mid < hi)%Z ->
          le10b E mid den = true ->
          lt10b (E + 1) mid den = true ->
          shortest_from fuel 1 lo mid hi den incl E = Some (d, x) ->
-         0 < d /\
+         (0 < d)%Z /\
          in_interval lo hi den incl d x = true /\
-         (forall d' x' : Z, 0 < d' -> in_interval lo hi den incl d' x' = true -> sigdigits d <= sigdigits d').
+         (forall d' x' : Z,
+          (0 < d')%Z -> in_interval lo hi den incl d' x' = true -> (sigdigits d <= sigdigits d')%Z).
 Proof. exact (@shortest_from_minimal). Qed.
 Print Assumptions C15_shortest_from_minimal.
 
 (** the digits returned carry no trailing zero *)
 Theorem C15_shortest_digits_stripped :
   forall (f : f64) (d x : Z),
-         shortest_digits f = Some (d, x) -> d mod 10 <> 0 /\ sigdigits d = ndigits d.
+         shortest_digits f = Some (d, x) -> (d mod 10)%Z <> 0%Z /\ sigdigits d = ndigits d.
 Proof. exact (@shortest_digits_stripped). Qed.
 Print Assumptions C15_shortest_digits_stripped.
 
@@ -209,7 +216,8 @@ Print Assumptions C15_text_num_total.
 
 (** ...and never returns more than 17 digits *)
 Theorem C15_shortest_digits_le17 :
-  forall (f : f64) (d x : Z), shortest_digits f = Some (d, x) -> sigdigits d <= 17 /\ 0 < d < 10 ^ 17.
+  forall (f : f64) (d x : Z),
+         shortest_digits f = Some (d, x) -> (sigdigits d <= 17)%Z /\ (0 < d < 10 ^ 17)%Z.
 Proof. exact (@shortest_digits_le17). Qed.
 Print Assumptions C15_shortest_digits_le17.
 
@@ -217,9 +225,9 @@ Print Assumptions C15_shortest_digits_le17.
 Theorem C15_shortest_digits_nearest_reads_back :
   forall (f : f64) (d x d' x' : Z),
          shortest_digits f = Some (d, x) ->
-         0 < d' ->
+         (0 < d')%Z ->
          f_same (dec_to_f64 d' x') (BinarySingleNaN.Babs f) = true ->
-         sigdigits d' <= sigdigits d ->
+         (sigdigits d' <= sigdigits d)%Z ->
          QArith_base.Qle (Qabs.Qabs (QArith_base.Qminus (dq d x) (f64_absQ f)))
            (Qabs.Qabs (QArith_base.Qminus (dq d' x') (f64_absQ f))).
 Proof. exact (@shortest_digits_nearest_reads_back). Qed.
@@ -229,27 +237,71 @@ Print Assumptions C15_shortest_digits_nearest_reads_back.
 Theorem C15_shortest_digits_tie_even :
   forall (f : f64) (d x d' x' : Z),
          shortest_digits f = Some (d, x) ->
-         0 < d' ->
+         (0 < d')%Z ->
          in_f64_interval f d' x' = true ->
-         sigdigits d' <= sigdigits d ->
+         (sigdigits d' <= sigdigits d)%Z ->
          QArith_base.Qeq (Qabs.Qabs (QArith_base.Qminus (dq d x) (f64_absQ f)))
            (Qabs.Qabs (QArith_base.Qminus (dq d' x') (f64_absQ f))) ->
-         ~ QArith_base.Qeq (dq d' x') (dq d x) -> Z.even d = true \/ d = 1.
+         ~ QArith_base.Qeq (dq d' x') (dq d x) -> Z.even d = true \/ d = 1%Z.
 Proof. exact (@shortest_digits_tie_even). Qed.
 Print Assumptions C15_shortest_digits_tie_even.
 
 (** the same for the integer search itself (closed under the global context) *)
 Theorem C15_shortest_from_nearest :
   forall (fuel : nat) (lo mid hi den : Z) (incl : bool) (E d x d' x' : Z),
-         0 < den ->
-         lo < mid < hi ->
+         (0 < den)%Z ->
+         (lo < mid < hi)%Z ->
          le10b E mid den = true ->
          lt10b (E + 1) mid den = true ->
          shortest_from fuel 1 lo mid hi den incl E = Some (d, x) ->
-         0 < d' ->
+         (0 < d')%Z ->
          in_interval lo hi den incl d' x' = true ->
-         sigdigits d' <= sigdigits d ->
+         (sigdigits d' <= sigdigits d)%Z ->
          QArith_base.Qle (Qabs.Qabs (QArith_base.Qminus (dq d x) (fr mid den)))
            (Qabs.Qabs (QArith_base.Qminus (dq d' x') (fr mid den))).
 Proof. exact (@shortest_from_nearest). Qed.
 Print Assumptions C15_shortest_from_nearest.
+
+(** STRINGS: what দেখাও writes (Model/Render.v applies nfc) is canonically equivalent to the string: same canonical decomposition, for every string of valid code points *)
+Theorem C15_nfc_canon_equiv :
+  forall s : list N, valid s -> reorder TT (decompose TT (nfc s)) = reorder TT (decompose TT s).
+Proof. exact (@nfc_canon_equiv). Qed.
+Print Assumptions C15_nfc_canon_equiv.
+
+(** ...and is in NFC: normalising it again changes nothing *)
+Theorem C15_nfc_idem :
+  forall s : list N, valid s -> nfc (nfc s) = nfc s.
+Proof. exact (@nfc_idem). Qed.
+Print Assumptions C15_nfc_idem.
+
+(** a string of characters that neither decompose, nor carry a combining class, nor are the second part of a composite is printed as it is *)
+Theorem C15_nfc_calm :
+  forall s : list N, forallb calm s = true -> nfc s = s.
+Proof. exact (@nfc_calm). Qed.
+Print Assumptions C15_nfc_calm.
+
+(** ...in particular every ASCII string *)
+Theorem C15_nfc_ascii :
+  forall s : list N, Forall (fun c : N => c < 128) s -> nfc s = s.
+Proof. exact (@nfc_ascii). Qed.
+Print Assumptions C15_nfc_ascii.
+
+(** ...and every string over ASCII and the Bangla block except the ten code points listed (nukta, virama, AA / AU length signs, the precomposed O / AU, RRA / RHA / YYA, the sandhi mark) *)
+Theorem C15_nfc_bangla_calm :
+  forall s : list N,
+         Forall (fun c : N => c < 128 \/ 2432 <= c /\ c <= 2559 /\ ~ In c bangla_not_calm) s -> nfc s = s.
+Proof. exact (@nfc_bangla_calm). Qed.
+Print Assumptions C15_nfc_bangla_calm.
+
+(** the composition table inverts the decomposition table (with Hangul), which is what equivalence rests on *)
+Theorem C15_compose_pair_decomp :
+  forall a b x : N,
+         validb b = true -> compose_pair TT a b = Some x -> decompose1 TT x = decompose1 TT a ++ [b].
+Proof. exact (@compose_pair_decomp). Qed.
+Print Assumptions C15_compose_pair_decomp.
+
+(** combining marks come out in canonical order *)
+Theorem C15_reorder_canon :
+  forall (T : tabs) (s : list N), canon T (reorder T s).
+Proof. exact (@reorder_canon). Qed.
+Print Assumptions C15_reorder_canon.
